@@ -170,6 +170,13 @@ class SymInterp(Interp):
             v = self.stmt(s, env)
         return v
 
+    def stmt(self, s, env):
+        if s.get("k") == "const" and s.get("e") is not None:
+            # a constant item declared inside a function body
+            env[s["name"]] = self.eval(s["e"], env)
+            return None
+        return super().stmt(s, env)
+
     def inline(self, f, args, recv=None):
         self.inline_depth += 1
         if self.inline_depth > 16:
@@ -187,7 +194,21 @@ class SymInterp(Interp):
         finally:
             self.inline_depth -= 1
 
+    def bind(self, p, v, env):
+        if p.get("k") == "p_or" and isinstance(env, Env):
+            # alternatives bind into a scratch scope; only the names the matching alternative introduced are merged
+            # (the base implementation copies every visible variable, which would shadow outer mutable variables)
+            for c in p["c"]:
+                e2 = Env(env)
+                if self.bind(c, v, e2):
+                    env.vars.update(e2.vars)
+                    return True
+            return False
+        return super().bind(p, v, env)
+
     def call_closure(self, clo, args):
+        if isinstance(clo, tuple) and clo and clo[0] == "pyfunc":
+            return clo[1](*args)
         _, e, cenv = clo
         env = cenv.child() if isinstance(cenv, Env) else Env(None, cenv)
         for p, a in zip(e["params"], args):
@@ -313,6 +334,8 @@ class SymInterp(Interp):
             fv = env[e["f"]["p"]]
             if isinstance(fv, tuple) and fv and fv[0] == "closure":
                 return self.call_closure(fv, [self.eval(a, env) for a in e["a"]])
+            if isinstance(fv, tuple) and fv and fv[0] == "pyfunc":
+                return fv[1](*[self.eval(a, env) for a in e["a"]])
         if k == "call" and self.resolver is not None and e["f"]["k"] == "path":
             pth = e["f"]["p"]
             last = pth.rsplit("::", 1)[-1]
@@ -366,6 +389,18 @@ class SymInterp(Interp):
 
     # ---- arithmetic --------------------------------------------------------------------------
     def binop(self, op, l, r, e):
+        if isinstance(l, tuple) and isinstance(r, tuple) and not isinstance(l, Term) and not isinstance(r, Term) and len(l) == len(r) \
+                and op in ("==", "!=", "<", ">", "<=", ">="):
+            # derived Ord / PartialEq on tuples: lexicographic
+            c = 0
+            for a, b in zip(l, r):
+                if self.binop("<", a, b, e):
+                    c = -1
+                    break
+                if self.binop(">", a, b, e):
+                    c = 1
+                    break
+            return {"==": c == 0, "!=": c != 0, "<": c < 0, ">": c > 0, "<=": c <= 0, ">=": c >= 0}[op]
         ll, rl = to_lin(l), to_lin(r)
         symbolic = (isinstance(l, (Lin, Term)) or isinstance(r, (Lin, Term))) and ll is not None and rl is not None
         if not symbolic:
